@@ -75,6 +75,21 @@ GlobalIdx(ss, k, r) == Offset(ss, k) + PanelFlat(ss[k], r)
 HSRow(ss, k, r) == {<<GlobalIdx(ss, k, r), 1>>} \cup
                    (IF r[1] > 0 THEN {<<GlobalIdx(ss, k, <<r[1] - 1, r[2]>>), -1>>} ELSE {})
 
+(* ---------------- MPhys (de)multiplexers: flat coordinate / force vectors -- *)
+NNodes(s) == s.nx * s.ny
+RECURSIVE NodeOffset(_, _)
+NodeOffset(ss, k) == IF k = 1 THEN 0 ELSE NodeOffset(ss, k - 1) + NNodes(ss[k - 1])
+TotalNodes(ss) == NodeOffset(ss, Len(ss)) + NNodes(ss[Len(ss)])
+\* position in the flat vector of component c of mesh node (i,j) of surface k   (get_src_indices)
+SrcIdx(ss, k, i, j, c) == 3 * (NodeOffset(ss, k) + i * ss[k].ny + j) + c
+\* Demux: surface array element (k,i,j,c) := flat[SrcIdx];  Mux: flat[SrcIdx] := surface array element
+MuxDomain(ss) == {<<k, i, j, c>> : k \in 1..Len(ss), i \in 0..MaxNx - 1, j \in 0..MaxNy - 1, c \in 0..2}
+MuxElems(ss) == {e \in MuxDomain(ss) : e[2] < ss[e[1]].nx /\ e[3] < ss[e[1]].ny}
+MuxBijective(ss) ==                                           \* exact inverse permutations
+      /\ \A e \in MuxElems(ss) : SrcIdx(ss, e[1], e[2], e[3], e[4]) \in 0 .. 3 * TotalNodes(ss) - 1
+      /\ \A e1, e2 \in MuxElems(ss) : SrcIdx(ss, e1[1], e1[2], e1[3], e1[4]) = SrcIdx(ss, e2[1], e2[2], e2[3], e2[4]) => e1 = e2
+      /\ Cardinality(MuxElems(ss)) = 3 * TotalNodes(ss)
+
 (* ---------------- invariants (per surface) ------------------------------ *)
 Heads(r) == {x[2] : x \in r}
 Tails(r) == {x[1] : x \in r}
@@ -142,6 +157,7 @@ HSWithinSurface(ss) == \A k \in 1..Len(ss) : \A r \in RPanels(ss[k]) : \A e \in 
 
 Inv_Surfaces == \A k \in 1..Len(surfs) : SurfInv(surfs[k])
 Inv_Offsets  == OffsetsPartition(surfs) /\ HSWithinSurface(surfs)
+Inv_Mux      == MuxBijective(surfs)
 
 (* ---------------- emission ---------------------------------------------- *)
 SetToSeq(S) == CHOOSE f \in [1..Cardinality(S) -> S] : \A i, j \in 1..Cardinality(S) : i # j => f[i] # f[j]
@@ -157,6 +173,8 @@ SurfTable(ss, k) ==
                    fold |-> GlobalIdx(ss, k, Fold(s, p))]],
     hs |-> [n \in 1..NPanels(s) |->
               LET r == <<(n - 1) \div (s.ny - 1), (n - 1) % (s.ny - 1)>> IN SetToSeq(HSRow(ss, k, r))],
+    src |-> [n \in 1 .. 3 * NNodes(s) |->
+               SrcIdx(ss, k, ((n - 1) \div 3) \div s.ny, ((n - 1) \div 3) % s.ny, (n - 1) % 3)],
     \* quadrant multipliers: real/ghost quadrant +1, ground image -1          (EvalVelMtx vortex_mults)
     qmult |-> IF s.ground THEN <<1, -1>> ELSE <<1>>,
     \* stencil weights in eighths: corners (i,j) (i+1,j) (i,j+1) (i+1,j+1)
